@@ -103,6 +103,9 @@ def run_mc(R, logic, cases, label='', alias_every=5):
 
 def replay_mc(R, data):
     d = data['data']
+    if d.get('stream') == 'long structures':
+        print('long structures re-run: %d difference(s)' % long_structures(R, data.get('property', '?'), d['logic']))
+        return
     kd = kd_from_json(d['kripke'])
     f = detuple(d['formula'])
     K = kd_py_aliased(kd) if d.get('labels_installed_with_shared_set_objects') else kd_py(kd)
@@ -162,6 +165,41 @@ def path_formulas_ops(k, aps=('p', 'q'), quant=False):
                 out += [(op, f, g) for f in by_ops[a] for g in by_ops[b]]
         by_ops[n] = out
     return [f for n in range(k + 1) for f in by_ops[n]]
+
+
+# ---------- long structures: "every finite total Kripke structure" includes structures with thousands of states ----------
+def long_structures(R, pid, logic):
+    """a ring 0 -> 1 -> ... -> n-1 -> 0 with p exactly at state 0 and q elsewhere: answers are known in closed form (the extracted
+    model works with unary numbers and is not run at this size).  Exactness must not depend on the length of paths: no helper may
+    recurse along them (RecursionError), no fixpoint may be cut off after a fixed number of rounds."""
+    from pyModelChecking.kripke import Kripke
+    M = lang_module(logic)
+    bad = 0
+    for n in (1400, 2300):
+        K = Kripke(R=[(i, (i + 1) % n) for i in range(n)], L=dict([(0, {'p'})] + [(i, {'q'}) for i in range(1, n)]))
+        everything, nothing, only0, rest = list(range(n)), [], [0], list(range(1, n))
+        if logic == 'CTL':
+            qs = [('E F p', everything), ('A F p', everything), ('E G q', nothing), ('A G (E F p)', everything), ('E (q U p)', everything),
+                  ('A X q', [i for i in range(n) if i != n - 1]), ('not E (q U p) or p', only0), ('A (q R (q or p))', everything), ('E G (q or p)', everything)]
+        elif logic == 'LTL':
+            qs = [('A G F p', everything), ('A F p', everything), ('A G q', nothing), ('A (q U p)', everything), ('A X q', [i for i in range(n) if i != n - 1])]
+        else:
+            qs = [('A G F p', everything), ('E F G q', nothing), ('A F (p and X q)', everything), ('E (q U (p and E X q))', everything)]
+        if n > 2000:
+            qs = qs[:4]
+        for text, want in qs:
+            R.evaluations += 1
+            r = call(lambda: M.modelcheck(K, text))
+            if r[0] != 'ok' or not isinstance(r[1], set) or sorted(r[1]) != want:
+                bad += 1
+                R.violation('on a ring of %d states %s.modelcheck(K, %r) %s' % (n, logic, text, ('raised ' + str(r[1])) if r[0] != 'ok' else
+                                                                               'is not exact (%d states returned, %d expected)' % (len(r[1]), len(want))),
+                            {'stream': 'long structures', 'logic': logic, 'n_states': n, 'formula_text': text,
+                             'impl': list(r) if r[0] != 'ok' else ['ok', '%d states' % len(r[1])], 'expected': '%d states' % len(want)})
+            else:
+                R.nontriv(('ring', n, logic, text))
+    R.cov['long_structures'] = {'ring_sizes': [1400, 2300], 'differences': bad}
+    return bad
 
 
 # ---------- wide connectives: Or/And are VARIADIC (the parsers fold 'a or b or c' into one node) ----------
